@@ -19,10 +19,12 @@ CFG_T = """CONSTANTS
  COUNT_ON_SUCCESS = %s
  BUSY_ON_ERROR = %s
  ABORT_ON_POST_ERROR = %s
+ DOUBLECLOSE = %s
 SPECIFICATION Spec
 INVARIANT Paced
 INVARIANT CountersFresh
 INVARIANT EmptyTaskOnlySilent
+INVARIANT ClosedOnce
 PROPERTY ExactlyOnce
 PROPERTY GoesOn
 CHECK_DEADLOCK FALSE
@@ -38,7 +40,7 @@ class Stop(BaseException):
 
 def cfg(maxiter, v=None):
     b = lambda n: "TRUE" if v == n else "FALSE"  # noqa: E731
-    return CFG_T % (maxiter, b("COUNT_ON_SUCCESS"), b("BUSY_ON_ERROR"), b("ABORT_ON_POST_ERROR"))
+    return CFG_T % (maxiter, b("COUNT_ON_SUCCESS"), b("BUSY_ON_ERROR"), b("ABORT_ON_POST_ERROR"), b("DOUBLECLOSE"))
 
 
 def expected_events(g, path):
@@ -49,8 +51,6 @@ def expected_events(g, path):
             ev.append(["get", la["out"]])
             if la["out"] in ("task4", "task5"):
                 ev.append(["rec_task", int(la["out"][-1])])
-            if la["out"] == "garbage":
-                ev.append(["crash", "ValueError"])
         elif la["ev"] == "call":
             ev.append(["call", la["key"], la["i"]])
             if la["post"] != "no":
@@ -58,6 +58,9 @@ def expected_events(g, path):
                 ev.append(["post", la["ctr"], la["post"]])
         elif la["ev"] == "sleep":
             ev.append(["sleep"])
+        elif la["ev"] == "leave":
+            ev.append(["close"])
+            ev.append(["crash", "ValueError"] if la["how"] == "ValueError" else ["return"])
     return ev
 
 
@@ -85,24 +88,24 @@ def play(env, silent, gets, posts, conf_name):
     rng = random.Random(len(gets) * 31 + len(posts))
     peer = c07.Peer(key, conf, rng)
     cl = client_mod.HttpBeaconClient()
-    cl.run(bconf, dry_run=True, beacon_id=4242, user="u", computer="c", process="p")
-    cl.silent = silent
     ev = []
-    start = cl.counter
+    state = {"start": None}
     gets, posts = list(gets), list(posts)
 
     class Writer:
         def write(self, rec):
             d = rec._asdict()
             if "counter" in d:
-                ev.append(["rec_cb", int(d["counter"]) - start])
+                ev.append(["rec_cb", int(d["counter"]) - state["start"]])
             else:
                 ev.append(["rec_task", int(c2.BeaconCommand[str(d["command"])].value)])
 
         def flush(self):
             pass
 
-    cl.writer = Writer()
+        def close(self):
+            ev.append(["close"])
+
     for k, kinds in TABLE.items():
         for i, kind in enumerate(kinds, 1):
             def h(task, k=k, i=i, kind=kind):
@@ -136,7 +139,7 @@ def play(env, silent, gets, posts, conf_name):
         ct, sig = content[4:4 + size - 16], content[4 + size - 16:4 + size]
         if len(content) != 4 + size or hmac_mod.new(peer.hmac, ct, hashlib.sha256).digest()[:16] != sig:
             return -1
-        return struct.unpack(">I", AES.new(peer.aes, AES.MODE_CBC, IV).decrypt(ct)[:4])[0] - start
+        return struct.unpack(">I", AES.new(peer.aes, AES.MODE_CBC, IV).decrypt(ct)[:4])[0] - state["start"]
 
     def request(method, url, headers=None, params=None, content=None, **kw):
         m = method.decode() if isinstance(method, bytes) else str(method)
@@ -150,8 +153,12 @@ def play(env, silent, gets, posts, conf_name):
             return httpx.Response(200 if po == "ok" else 503, content=b"", request=rq)
         if not gets:
             raise Stop()
+        if state["start"] is None:
+            state["start"] = cl.counter  # run() starts the callback counter from the clock
         o = gets.pop(0)
         ev.append(["get", o])
+        if o == "interrupt":
+            raise KeyboardInterrupt()
         if peer.aes is None:
             peer.learn_keys(c07.recover_metadata(conf, method, url, headers, params, content))
         if o == "neterr":
@@ -170,16 +177,22 @@ def play(env, silent, gets, posts, conf_name):
     old_req, old_sleep = client_mod.httpx.request, client_mod.time.sleep
     old_disable = logging.root.manager.disable
     logging.disable(logging.CRITICAL)  # the loop logs every failure it survives; the events are what is compared
+    old_rw = client_mod.RecordWriter
+    client_mod.RecordWriter = lambda *a, **kw: Writer()
     client_mod.httpx.request = request
     client_mod.time.sleep = lambda s: ev.append(["sleep", s])
     try:
-        cl._beacon_loop()
+        # the whole of run(): set-up, the loop, and the way out (the writer is closed whatever ends the loop)
+        cl.run(bconf, beacon_id=4242, user="u", computer="c", process="p", silent=silent, writer="records")
+        ev.append(["return"])
     except Stop:
-        pass
+        if ev and ev[-1] == ["close"]:
+            ev.pop()  # the harness ending the script is not a step of the model
     except Exception as e:  # noqa: BLE001 - the loop's own failure is an event
         ev.append(["crash", type(e).__name__])
     finally:
         client_mod.httpx.request, client_mod.time.sleep = old_req, old_sleep
+        client_mod.RecordWriter = old_rw
         logging.disable(old_disable)
     return ev
 
@@ -195,9 +208,9 @@ def loop_part(ctx):
     q = ctx.quick
     r = ctx.tlc("BeaconLoop", cfg(3 if q else 4), name="loop-model", workers=8)
     core.require_clean(r, "BeaconLoop")
-    core.require_coverage(r, ["Get", "Call", "EndDispatch", "Sleep"])
+    core.require_coverage(r, ["Get", "Call", "EndDispatch", "Sleep", "Leave"])
     rejected = {}
-    for v in ("COUNT_ON_SUCCESS", "BUSY_ON_ERROR", "ABORT_ON_POST_ERROR"):
+    for v in ("COUNT_ON_SUCCESS", "BUSY_ON_ERROR", "ABORT_ON_POST_ERROR", "DOUBLECLOSE"):
         rv = ctx.tlc("BeaconLoop", cfg(2, v), name="loop-" + v.lower(), workers=2, coverage=False)
         if rv.ok:
             raise core.MachineryError(f"BeaconLoop.tla accepts the variant {v} (vacuous?)")
